@@ -35,14 +35,14 @@ let () = iter_lines (fun line ->
       let ri = { i_status = n_of_int (int_of_string st); i_etag = opt etag; i_last_modified = opt lm;
                  i_content_length = opt pcl; i_passthrough = (pt = "1"); i_body = body_of body } in
       res (function
-        | W416 l -> "416 " ^ show_oz l
+        | W416 l -> "416 " ^ show_oz l ^ " cr=" ^ show_os (content_range_416 l)
         | WResp (s, cr, cl, ar, b) ->
             Printf.sprintf "%d cr=%s cl=%s ar=%s body=%s" (int_of_n s) (show_os cr) (show_os cl)
               (match ar with None -> "~" | Some a -> show_accept a) (show_chunks b))
         (respond (date_table dates) (env_of m r ir ims inm im) ri (accept_of acc) (oz clen))
   | ["sf"; m; r; ir; ims; inm; im; etag; lm; data; dates] ->
       res (function
-        | W416 l -> "416 " ^ show_oz l
+        | W416 l -> "416 " ^ show_oz l ^ " cr=" ^ show_os (content_range_416 l)
         | WResp (s, cr, cl, ar, b) ->
             Printf.sprintf "%d cr=%s cl=%s ar=%s body=%s" (int_of_n s) (show_os cr) (show_os cl)
               (match ar with None -> "~" | Some a -> show_accept a) (show_chunks b))
@@ -65,6 +65,7 @@ let () = iter_lines (fun line ->
       let r = { r_units = nlist_of_csv units; r_ranges = rs } in
       res (function None -> "none" | Some (a, b) -> show_oz a ^ ":" ^ show_oz b) (range_for_length r (oz len))
       ^ " " ^ res show_os (to_content_range_header r (oz len))
+  | ["wk"; st; name] -> if wsgi_header_kept (n_of_int (int_of_string st)) (nlist_of_csv name) then "1" else "0"
   | ["ibrv"; a; b; l] -> res string_of_bool (is_byte_range_valid (oz a) (oz b) (oz l))
   | ["rw"; body; start; len] ->
       res show_chunks (range_wrapper (body_of body) (nat_of_int (int_of_string start)) (nat_of_int (int_of_string len)))
